@@ -43,7 +43,7 @@ REGISTRATION = {
             "an explicit outcome, the harness advances fake time).",
 }
 
-MODULES = ["OllamaVerif.Properties.C07", "OllamaVerif.Tie.C07"]
+MODULES = ["OllamaVerif.Properties.C07", "OllamaVerif.Properties.C07Batch", "OllamaVerif.Tie.C07"]
 THEOREMS = [
     "OllamaVerif.C07.slot_exclusive",
     "OllamaVerif.C07.no_free_slot_no_load",
@@ -68,6 +68,25 @@ THEOREMS = [
     "OllamaVerif.Tie.C07.tree_reset_end_repaired",
     "OllamaVerif.Tie.C07.tree_coherent_invariant",
     "OllamaVerif.Tie.C07.tree_trace",
+    # the executable model itself (Properties/C07Batch.lean): processBatch / admission / whole histories
+    "OllamaVerif.C07.newSequence_spec",
+    "OllamaVerif.C07.shift_ok_shape",
+    "OllamaVerif.C07.shift_re_shape",
+    "OllamaVerif.C07.innerLoop_IL",
+    "OllamaVerif.C07.phase1_PInv",
+    "OllamaVerif.C07.findStartLoc_free",
+    "OllamaVerif.C07.store_PC",
+    "OllamaVerif.C07.phase3Seq_R",
+    "OllamaVerif.C07.phase3_R",
+    "OllamaVerif.C07.processBatch_SInv",
+    "OllamaVerif.C07.runEvent_SInv",
+    "OllamaVerif.C07.runEvents_SInv",
+    "OllamaVerif.C07.SInv_init",
+    "OllamaVerif.C07.reachable_coherent_owned",
+    "OllamaVerif.C07.hintsOK_of_no_defrag",
+    "OllamaVerif.C07.demo_runs",
+    "OllamaVerif.C07.demo_mid",
+    "OllamaVerif.Tie.C07.tree_reachable_coherent_owned",
 ]
 OVERLAY = {
     "runner/ollamarunner/zz_verif_c07_test.go": "runner_ollamarunner/zz_verif_c07_test.go",
